@@ -207,6 +207,40 @@ Theorem C05_scope_snapshot_refuted : forall pkg a, context_ref_name_snapshot pkg
 Proof. exact snapshot_self_reference_empty. Qed.
 Print Assumptions C05_scope_snapshot_refuted.
 
+
+(* the printer before fix 5e02f98 wrote a relative type name that starts with a statement keyword or a scalar
+   type name as it is: message t.v1.string referenced from t.v1.A was printed "string" and read back as the
+   scalar type; message t.v1.option was printed "option" and the body "option f = 1;" is read as an option
+   statement. The printer as it is now writes the absolute name, which reads back as the message. *)
+Theorem C05_scope_keyword_previous_refuted :
+  context_ref_name_nokw (to_symtab kw_table) kw_pkg [[65]] kw_pkg [kw_string] = {| pn_abs := false; pn_name := [kw_string] |}
+  /\ interp_vt kw_table kw_pkg [[65]] (context_ref_name_nokw (to_symtab kw_table) kw_pkg [[65]] kw_pkg [kw_string])
+     = Some (DScalar kw_string)
+  /\ context_ref_name_nokw (to_symtab kw_table) kw_pkg [[65]] kw_pkg [kw_option] = {| pn_abs := false; pn_name := [kw_option] |}
+  /\ (let f := {| sf_cm := no_cmt; sf_label := LNone;
+                   sf_type := SNamed (context_ref_name_nokw (to_symtab kw_table) kw_pkg [[65]] kw_pkg [kw_option]);
+                   sf_name := [102]; sf_num := 1; sf_opts := [] |} in
+      parse_elem 3 (emit_elem (SMsg no_cmt [65] [] [SField f]))
+      = Some (SMsg no_cmt [65] [(OPlain [102], RScalar (TLit [49]))] [], []))
+  /\ context_ref_name_safe (to_symtab kw_table) kw_pkg [[65]] kw_pkg [kw_string] = {| pn_abs := true; pn_name := kw_pkg ++ [kw_string] |}
+  /\ interp_vt kw_table kw_pkg [[65]] (context_ref_name_safe (to_symtab kw_table) kw_pkg [[65]] kw_pkg [kw_string])
+     = Some (DRef kw_pkg [kw_string]).
+Proof. exact keyword_previous_refuted. Qed.
+Print Assumptions C05_scope_keyword_previous_refuted.
+
+(* a relative printed name never starts with a statement keyword; the keyword table is the Go map *)
+Theorem C05_scope_no_keyword_head : forall st ctx_pkg ctx ref_pkg ref,
+  (qname_eqb ctx_pkg ref_pkg = false -> ref_pkg <> []) ->
+  pn_abs (context_ref_name_safe st ctx_pkg ctx ref_pkg ref) = false ->
+  is_statement_keyword (hd [] (pn_name (context_ref_name_safe st ctx_pkg ctx ref_pkg ref))) = false.
+Proof. exact safe_head_not_keyword. Qed.
+Print Assumptions C05_scope_no_keyword_head.
+
+Theorem C05_keyword_table_agrees :
+  statement_keywords = PrintGen.statement_keywords /\ PrintGen.statement_keyword_checks = 2%N.
+Proof. exact statement_keywords_agree. Qed.
+Print Assumptions C05_keyword_table_agrees.
+
 (* ---- (3) option values at token level --------------------------------------------------------- *)
 (* for every option tree (scalars, nested messages, arrays, arrays of messages) the parser of the
    emitted token subset reads back the tree the printer wrote, whatever follows; fuel = size of the tree *)
